@@ -50,6 +50,8 @@ class _TransactionBase:
                 table.remove_object_no_lock(transaction_item.old)
             else:
                 table = self._mdib.context_states if transaction_item.new.is_context_state else self._mdib.states
+            if transaction_item.new is None:
+                continue  # a deleted state: nothing to add, nothing that a notification could tell
             table.add_object_no_lock(transaction_item.new)
             updates_list.append(transaction_item.new.mk_copy(copy_node=False))
         return updates_list
